@@ -193,13 +193,29 @@ func runWorkload(w workload, fs *countFS, snap []byte, acks *[]ack, mark func(st
 	mark("")
 	idx := uint64(0)
 	upd := func(n int, tag string) {
-		for i := 0; i < n; i++ {
-			idx++
-			k, v := fmt.Sprintf("k%d", idx%2), fmt.Sprintf("%s%d", tag, idx)
-			if _, err := d.Update([]sm.Entry{{Index: idx, Cmd: enc(k, v)}}); err != nil {
+		// batches of 1..3 entries; every fifth value is empty (an empty field is absent from the encoding, so a
+		// decoder object reused across the entries of a batch would leak the previous value into it)
+		for i := 0; i < n; {
+			sz := 1 + int(idx%3)
+			if sz > n-i {
+				sz = n - i
+			}
+			ents := []sm.Entry{}
+			batch := []ack{}
+			for j := 0; j < sz; j++ {
+				idx++
+				k, v := fmt.Sprintf("k%d", idx%2), fmt.Sprintf("%s%d", tag, idx)
+				if idx%5 == 3 || (j > 0 && idx%7 == 2) {
+					v = ""
+				}
+				ents = append(ents, sm.Entry{Index: idx, Cmd: enc(k, v)})
+				batch = append(batch, ack{index: idx, key: k, val: v})
+			}
+			if _, err := d.Update(ents); err != nil {
 				panic(err)
 			}
-			*acks = append(*acks, ack{index: idx, key: k, val: v})
+			*acks = append(*acks, batch...)
+			i += sz
 		}
 	}
 	upd(w.pre, "v")
@@ -210,7 +226,7 @@ func runWorkload(w workload, fs *countFS, snap []byte, acks *[]ack, mark func(st
 	}
 	if w.recover {
 		mark("recover")
-		if err := d.RecoverFromSnapshot(bytes.NewReader(snap), nil); err != nil {
+		if err := d.RecoverFromSnapshot(hx.NewShortReader(snap), nil); err != nil {
 			panic(err)
 		}
 		mark("")
@@ -356,7 +372,7 @@ func main() {
 						return "update-error:" + err.Error()
 					}
 				}
-				if err := d.RecoverFromSnapshot(bytes.NewReader(big[:cut]), nil); err == nil {
+				if err := d.RecoverFromSnapshot(hx.NewShortReader(big[:cut]), nil); err == nil {
 					return "" // a cut the decoder does not notice: nothing to judge
 				}
 				if v, _ := d.Lookup([]byte("k0")); v == nil || string(v.([]byte)) != "v3" {
@@ -418,7 +434,7 @@ func main() {
 			if _, err := d.Update([]sm.Entry{{Index: 1, Cmd: enc("k0", "v1")}}); err != nil {
 				return "update-error:" + err.Error()
 			}
-			if err := d.RecoverFromSnapshot(bytes.NewReader(big), nil); err != nil {
+			if err := d.RecoverFromSnapshot(hx.NewShortReader(big), nil); err != nil {
 				return "recover-error:" + err.Error()
 			}
 			// acknowledged; power is lost now
